@@ -653,6 +653,44 @@ func (env *Env) call(e *SExpr) TV {
 			}
 		}
 		return TV{Sc{env.ex.ctx.Const("zero_"+name, SInt)}, nil}
+	case "deref":
+		// deref(p): the value p points to
+		a := env.eval(e.Args[0])
+		pt, ok := under(a.T).(*types.Pointer)
+		if !ok {
+			sfail("deref of non-pointer %s", e.Args[0])
+		}
+		switch v := a.V.(type) {
+		case Loc:
+			return TV{env.loadSpec(env.cur, v), pt.Elem()}
+		case Sc:
+			return TV{env.loadSpec(env.cur, Loc{Kind: "O", Base: typeKeyString(pt.Elem()), Dims: []Term{v.T}, Type: pt.Elem()}), pt.Elem()}
+		}
+		sfail("deref of %T", a.V)
+	case "hastype", "as":
+		// hastype(x, "*T"): the dynamic type of interface x is *T; as(x, "*T"): x's value viewed as a *T
+		a := env.eval(e.Args[0])
+		iv, ok := a.V.(If)
+		if !ok || len(e.Args) != 2 || e.Args[1].Kind != "lit" {
+			sfail("%s(iface, \"type\") expected", name)
+		}
+		t := env.resolveType(strings.Trim(e.Args[1].Lit, "\""))
+		if name == "hastype" {
+			return boolTV(tEq(iv.Typ, env.ex.typeID(t)))
+		}
+		return TV{Sc{iv.Val}, t}
+	case "atlock":
+		// atlock(e): e in the state right after the most recent lock acquisition on this path (old(e) if none)
+		n := env.child()
+		if env.cur.lastLockSnap != nil {
+			n.cur = env.cur.lastLockSnap
+		} else {
+			n.cur = env.old
+		}
+		if n.sink == nil {
+			n.sink = env.cur
+		}
+		return n.eval(e.Args[0])
 	case "nothingAssigned":
 		// every heap array is what it was in the old state (strongest frame)
 		if env.cur.epoch != env.old.epoch || len(env.cur.havockedPrefixes) != len(env.old.havockedPrefixes) {
